@@ -580,12 +580,41 @@ func runC09(env *lib.Env, rep *lib.Report) {
 			}
 		}
 	}
+	// ---- (vii) deep nesting / long runs of one opening token: a parser that backtracks or recurses per level
+	// meets runs of 30 .. 10000 of them, left open, closed, and followed by something it cannot parse
+	{
+		var nest int64
+		for _, lead := range []string{"DELETE FROM t WHERE ", "SELECT * FROM t WHERE a = ", "SELECT ", "INSERT INTO t VALUES ", "CREATE TABLE t ", "UPDATE t SET a = ", "SELECT * FROM t JOIN u ON ", ""} {
+			for _, open := range []string{"(", "((", "( ", "NOT ", "- ", "(SELECT ", "a = (", "1 AND (", "'", "\"", "[", "{"} {
+				for _, n := range []int{30, 40, 64, 100, 1000, 10000} {
+					for _, tail := range []string{"", "1", "a = 1", strings.Repeat(")", n), "1" + strings.Repeat(")", n), "a = 1" + strings.Repeat(")", n) + " AND", ","} {
+						if !r.mine() {
+							continue
+						}
+						nest++
+						q := lead + strings.Repeat(open, n) + tail
+						r.prog.Set("nesting", fmt.Sprintf("%q + %d x %q + %q", lead, n, open, clipC09(tail)))
+						res, err, pan := c09ParseText(q)
+						r.judge("nesting", fmt.Sprintf("%s%d x %q %s", lead, n, open, clipC09(tail)), res, err, pan)
+					}
+				}
+			}
+		}
+		rep.Bounds["(vii) deep nesting"] = "8 statement prefixes x 12 opening tokens repeated 30/40/64/100/1000/10000 times x 7 tails (left open, closed, closed and continued), under the per-input watchdog"
+	}
 	rep.Bounds["inputs enumerated (all shards)"] = r.n
 	_ = os.Stderr
 }
 
 // c09ReducedVocabulary keeps the symbols whose token constant is mentioned in
 // the mirrored sql/parser.go (found with go/ast), plus one unreferenced one.
+func clipC09(s string) string {
+	if len(s) > 40 {
+		return s[:20] + fmt.Sprintf("..(%d bytes)", len(s))
+	}
+	return s
+}
+
 func c09ReducedVocabulary(voc []c09Sym) []c09Sym {
 	_, self, _, _ := runtime.Caller(0)
 	sqlDir := filepath.Join(filepath.Dir(filepath.Dir(self)), "sql")
